@@ -30,6 +30,7 @@ const prelude = `(set-logic ALL)
 (assert (forall ((s Str) (i Int)) (! (and (<= 0 (at s i)) (< (at s i) 256)) :pattern ((at s i)))))
 (assert (forall ((s Str) (a Int) (b Int)) (! (=> (and (<= 0 a) (<= a b) (<= b (len s))) (= (len (sub s a b)) (- b a))) :pattern ((sub s a b)))))
 (assert (forall ((s Str) (a Int) (b Int) (i Int)) (! (=> (and (<= 0 a) (<= a b) (<= b (len s)) (<= 0 i) (< i (- b a))) (= (at (sub s a b) i) (at s (+ a i)))) :pattern ((at (sub s a b) i)))))
+(assert (forall ((s Str) (a Int) (b Int) (i Int)) (! (=> (and (<= 0 a) (<= a i) (< i b) (<= b (len s))) (= (at (sub s a b) (- i a)) (at s i))) :pattern ((sub s a b) (at s i)))))
 (assert (forall ((x Str) (y Str)) (! (= (len (cat x y)) (+ (len x) (len y))) :pattern ((cat x y)))))
 (assert (forall ((x Str) (y Str) (i Int)) (! (=> (and (<= 0 i) (< i (+ (len x) (len y)))) (= (at (cat x y) i) (ite (< i (len x)) (at x i) (at y (- i (len x)))))) :pattern ((at (cat x y) i)))))
 (assert (forall ((x Str) (y Str)) (! (= (seq x y) (= x y)) :pattern ((seq x y)))))
